@@ -79,7 +79,7 @@ PROPS = {
               "Pw.Props.C10.C10_skip_partial", "Pw.Props.C10.C10_submin", "Pw.Props.C10.C10_error_class",
               "Pw.Props.C10.C10_session_step", "Pw.Props.C10.C10_startup", "Pw.Props.C10.slurpChunks_le",
               "Pw.Props.C10.slurpChunks_sum"],
-             [("limit", 4000, 160000), ("limitbig", 0, 12)], ["Reader", "Consts"],
+             [("limit", 4000, 160000), ("limitbig", 0, 12), ("copy", 1200, 60000)], ["Reader", "Consts"],
              design_ref="§7 C10",
              level_text="Lean theorems for EVERY limit L and every 32-bit declared length: a body of at most L bytes is read exactly "
                         "(C10_accept), a larger one is never delivered, its declared body is consumed in full and the stream resumes at "
